@@ -554,7 +554,15 @@ def recode(fn, ovld, recurse_sym, call_next_sym, newname):
             " to force a refresh, or remove __pycache__ altogether. If that does not work,"
             " avoid calling recurse()/call_next()"
         )
-    tree = ast.parse(textwrap.dedent(src))
+    if src[:1] in (" ", "\t"):
+        # An indented definition is parsed as the body of a block. Dedenting
+        # it would also strip whitespace inside multi-line string literals.
+        tree = ast.parse("if True:\n" + src)
+        tree.body = tree.body[0].body
+        first_line = 2
+    else:
+        tree = ast.parse(src)
+        first_line = 1
     new = NameConverter(
         anal=ovld.argument_analysis,
         recurse_sym=recurse_sym,
@@ -567,7 +575,7 @@ def recode(fn, ovld, recurse_sym, call_next_sym, newname):
     if fn.__closure__:
         new = closure_wrap(new.body[0], "irrelevant", fn.__code__.co_freevars)
     ast.fix_missing_locations(new)
-    ast.increment_lineno(new, fn.__code__.co_firstlineno - 1)
+    ast.increment_lineno(new, fn.__code__.co_firstlineno - first_line)
     res = compile(new, mode="exec", filename=fn.__code__.co_filename)
     if fn.__closure__:
         res = [x for x in res.co_consts if isinstance(x, CodeType)][0]
